@@ -72,18 +72,18 @@ OpenOps == {"open_uni", "open_bi"}
 AcceptOps == {"accept_uni", "accept_bi"}
 OpDir(op) == IF op \in {"open_uni", "accept_uni"} THEN 1 ELSE 0
 
-Empty == [cfg |-> [lossless |-> TRUE, ordered |-> TRUE, dup |-> FALSE, idle |-> FALSE, maxuni |-> 0, maxbi |-> 0],
+Empty == [cfg |-> [lossless |-> TRUE, ordered |-> TRUE, dup |-> FALSE, idle |-> FALSE, maxuni |-> 0, maxbi |-> 0, sendwin |-> 0],
           clones |-> <<>>, selfw |-> {}, kinds |-> <<>>, pend |-> <<>>, held |-> <<>>,
           wlo |-> <<>>, whi |-> <<>>, fin |-> {}, rst |-> {}, stp |-> <<>>, cursor |-> <<>>,
           rend |-> {}, rdirty |-> {}, opened |-> <<>>, accepted |-> <<>>, used |-> {},
-          closedBy |-> <<>>, lostSeen |-> {}, conns |-> {}, epClosed |-> {}, refused |-> {},
+          closedBy |-> <<>>, syncClosed |-> {}, lostSeen |-> {}, conns |-> {}, epClosed |-> {}, refused |-> {},
           dsent |-> <<>>, drecv |-> <<>>, phase |-> "run"]
 
 TInit == l = 1 /\ bad = {} /\ cur = <<0>> /\ m = Empty
 
 Reset == /\ Is("Reset")
          /\ m' = [Empty EXCEPT !.cfg = [lossless |-> e.lossless, ordered |-> e.ordered, dup |-> e.dup, idle |-> e.idle,
-                                        maxuni |-> e.maxuni, maxbi |-> e.maxbi]]
+                                        maxuni |-> e.maxuni, maxbi |-> e.maxbi, sendwin |-> e.sendwin]]
          /\ cur' = <<e.run>> /\ bad' = bad /\ l' = l + 1
 
 \* ---------------------------------------------------------------------------
@@ -120,14 +120,19 @@ Poll == /\ Is("Poll")
 \* ---------------------------------------------------------------------------
 \* application level
 
+\* closedBy maps (connection, side) to the set of error codes the peer may see.  close() and the implicit close
+\* of the last handle act at once (the first one wins); Endpoint::close() reaches a connection through its
+\* driver's channel, so a close() or last-handle drop that follows it may still win.
 Closed(c, s) == <<c, s>> \in DOMAIN m.closedBy
-CloseWith(f, c, s, code) == IF <<c, s>> \in DOMAIN f THEN f ELSE Set(f, <<c, s>>, code)
+CloseSync(mm, c, s, code) ==
+  IF <<c, s>> \in mm.syncClosed THEN mm
+  ELSE [mm EXCEPT !.closedBy = Set(@, <<c, s>>, At(@, <<c, s>>, {}) \cup {code}), !.syncClosed = @ \cup {<<c, s>>}]
 
 \* is a connection-level error result explained by what the applications / the configuration did?
 \* (err, code) = kind and numeric code of the ConnectionError as logged
 Justified(c, s, err, code) ==
   \/ err = "LocallyClosed" /\ Closed(c, s)
-  \/ err = "AppClosed" /\ Closed(c, 1 - s) /\ m.closedBy[<<c, 1 - s>>] = code
+  \/ err = "AppClosed" /\ Closed(c, 1 - s) /\ code \in m.closedBy[<<c, 1 - s>>]
   \* an application close during the handshake travels as a transport close with APPLICATION_ERROR (12)
   \/ err = "ConnClosed" /\ code = 12 /\ Closed(c, 1 - s)
   \* CONNECTION_REFUSED (2): the server application refused or dropped the Incoming, or its endpoint is closed
@@ -285,12 +290,13 @@ Sync ==
             /\ m' = IF e.res = "ok" /\ dr \notin DOMAIN m.stp THEN [m EXCEPT !.stp = Set(@, dr, e.n)] ELSE m
             /\ bad' = bad
        [] e.op = "close" ->
-            /\ m' = [m EXCEPT !.closedBy = CloseWith(@, c, s, e.n)]
+            /\ m' = CloseSync(m, c, s, e.n)
             /\ bad' = bad
        [] e.op = "ep_close" ->
             /\ m' = [m EXCEPT !.epClosed = @ \cup {e.e},
                               !.closedBy = [x \in DOMAIN @ \cup {cs \in m.conns : EpOf(cs[1], cs[2]) = e.e} |->
-                                              IF x \in DOMAIN @ THEN @[x] ELSE e.n]]
+                                              IF x \in m.syncClosed THEN @[x]
+                                              ELSE IF EpOf(x[1], x[2]) = e.e THEN At(@, x, {}) \cup {e.n} ELSE @[x]]]
             /\ bad' = bad
        [] e.op = "inc_accept" ->
             /\ m' = IF e.res = "ok" THEN [m EXCEPT !.conns = @ \cup {<<c, 0>>}] ELSE [m EXCEPT !.refused = @ \cup {c}]
@@ -318,12 +324,11 @@ HandleDropped ==
          h == IF isStream /\ e.task >= 0 THEN At(m.held, e.task, 0) - 1 ELSE At(m.held, e.task, 0)
          \* implicit finish (SendStream::drop), implicit stop(0) unless the end was seen (RecvStream::drop),
          \* implicit close(0) when the last handle of a connection goes away (ConnectionRef::drop)
-         m1 == [m EXCEPT !.fin = IF e.kind = "send" /\ dw \notin @ \cup m.rst THEN @ \cup {dw} ELSE @,
+         m0 == [m EXCEPT !.fin = IF e.kind = "send" /\ dw \notin @ \cup m.rst THEN @ \cup {dw} ELSE @,
                          !.used = IF e.kind = "send" THEN @ \cup {<<c, e.sid>>} ELSE @,
                          !.stp = IF e.kind = "recv" /\ dr \notin m.rend /\ dr \notin DOMAIN @ THEN Set(@, dr, 0) ELSE @,
-                         !.closedBy = IF e.kind \in {"send", "recv", "conn", "connecting"} /\ e.left = 0
-                                        THEN CloseWith(@, c, s, 0) ELSE @,
                          !.held = IF e.task >= 0 THEN Set(@, e.task, h) ELSE @]
+         m1 == IF e.kind \in {"send", "recv", "conn", "connecting"} /\ e.left = 0 THEN CloseSync(m0, c, s, 0) ELSE m0
      IN
      /\ m' = m1
      /\ bad' = bad \cup (IF e.task >= 0 /\ h = 0 /\ e.task \notin DOMAIN m.pend
@@ -336,7 +341,8 @@ AbortAll ==
   /\ bad' = bad \cup (IF e.capped THEN {}
                       ELSE Flag(\A i \in 1..Len(e.tasks) : At(m.clones, e.tasks[i], 0) = 0, "StaleRegistration"))
   /\ m' = [m EXCEPT !.pend = <<>>, !.phase = IF e.capped THEN "capped" ELSE "aborted",
-                    !.closedBy = [x \in DOMAIN @ \cup m.conns |-> IF x \in DOMAIN @ THEN @[x] ELSE 0]]
+                    !.closedBy = [x \in DOMAIN @ \cup m.conns |-> IF x \in m.syncClosed THEN @[x] ELSE At(@, x, {}) \cup {0}],
+                    !.syncClosed = @ \cup m.conns]
   /\ UNCHANGED cur /\ l' = l + 1
 
 \* ---------------------------------------------------------------------------
@@ -355,6 +361,13 @@ AllClosed(c, s, dir) ==
      /\ <<c, sid, s>> \in m.rend
      /\ dir = 1 \/ <<c, sid, 1 - s>> \in m.rend
 
+\* bytes handed to write() by side s of connection c
+RECURSIVE SumOver(_, _)
+SumOver(f, D) == IF D = {} THEN 0 ELSE LET x == CHOOSE x \in D : TRUE IN f[x] + SumOver(f, D \ {x})
+TotalWritten(c, s) == SumOver(m.whi, {d \in DOMAIN m.whi : d[1] = c /\ d[3] = s})
+\* the configured send window is small enough to have blocked a write at some point
+Tight(c, s) == m.cfg.sendwin > 0 /\ m.cfg.sendwin <= TotalWritten(c, s)
+
 DataCond(p) ==
   LET c == p.c
       s == p.side
@@ -368,7 +381,8 @@ DataCond(p) ==
     [] p.op = "read_to_end" -> dr \in m.fin \cup m.rst \/ PendWrite(dr)
     [] p.op \in WriteOps ->
          \* the peer stopped the stream, or read everything ever written (credit was returned), or waits to read
-         dw \in DOMAIN m.stp \/ PendRead(dw)
+         \* (a stopped stream with a tight send window is excluded: see KnownStoppedWriter below)
+         (dw \in DOMAIN m.stp /\ ~Tight(c, s)) \/ PendRead(dw)
            \/ (dw \notin m.rdirty /\ At(m.cursor, dw, 0) = At(m.whi, dw, 0) /\ At(m.wlo, dw, 0) = At(m.whi, dw, 0))
     [] p.op \in AcceptOps ->
          \E u \in m.used : u[1] = c /\ Initiator(u[2]) = 1 - s /\ Dir(u[2]) = OpDir(p.op)
@@ -402,6 +416,14 @@ KnownStopped(p) ==
   /\ p.op = "stopped" /\ ~m.cfg.idle /\ Alive(p.c)
   /\ <<p.c, p.sid, p.side>> \in m.rst
 
+\* KNOWN FINDING (C18): a writer that is woken by the peer's STOP_SENDING while the connection's send window is
+\* exhausted gets Blocked again (SendStream::write_source tests the window before the stop reason) and is
+\* registered in connection_blocked; when the window reopens StreamsState::poll reports Writable only for
+\* streams with stream-level credit, which a stopped stream at its limit never regains: the writer sleeps for ever.
+KnownStoppedWriter(p) ==
+  /\ p.op \in WriteOps /\ ~m.cfg.idle /\ Alive(p.c)
+  /\ <<p.c, p.sid, p.side>> \in DOMAIN m.stp /\ Tight(p.c, p.side)
+
 LostName(op) ==
   CASE op \in ReadOps -> "LostWakeup_read" [] op \in WriteOps -> "LostWakeup_write"
     [] op \in AcceptOps -> "LostWakeup_accept" [] op \in OpenOps -> "LostWakeup_open"
@@ -415,8 +437,11 @@ Quiescent ==
                 \cup (IF e.timers = 0 /\ e.net = 0
                         THEN UNION {Flag(~Enabled(m.pend[t]), LostName(m.pend[t].op)) : t \in DOMAIN m.pend}
                         ELSE {})
-  /\ LET known == IF e.timers = 0 /\ e.net = 0 /\ \E t \in DOMAIN m.pend : KnownStopped(m.pend[t])
-                    THEN {"StoppedPendingAcrossResetAck"} ELSE {} IN
+  /\ LET final == e.timers = 0 /\ e.net = 0
+         known == (IF final /\ \E t \in DOMAIN m.pend : KnownStopped(m.pend[t])
+                     THEN {"StoppedPendingAcrossResetAck"} ELSE {})
+                  \cup (IF final /\ \E t \in DOMAIN m.pend : KnownStoppedWriter(m.pend[t]) /\ ~Enabled(m.pend[t])
+                          THEN {"StoppedWriterBlockedBySendWindow"} ELSE {}) IN
      IF known = {} THEN TRUE ELSE PrintT(<<"KNOWN", known, "line", l, "run", cur>>)
   /\ UNCHANGED <<cur, m>> /\ l' = l + 1
 
